@@ -2,7 +2,7 @@
    All functions named nary_* are slices of sc_notify_recursive_nary GENERATED from /repo (Gen/NotifyC01.v). *)
 From Coq Require Import ZArith List Bool.
 From Coq Require Import Permutation Lia.
-From ScV Require Import Base.CInt Gen.NotifyC01 C01.NaryArith C01.NaryDelivery C01.MergeModel C01.MergeProofs C01.MergeCorr.
+From ScV Require Import Base.CInt Gen.NotifyC01 C01.NaryArith C01.NaryDelivery C01.MergeModel C01.MergeProofs C01.MergeCorr Gen.Consts C18.MacroProofs C01.BinaryArith.
 Import ListNotations.
 Local Open Scope Z_scope.
 
@@ -128,3 +128,74 @@ Proof.
   intros t x y Hx Hy. vm_compute in Hx, Hy.
   destruct Hx as [Hx|[Hx|[]]]; destruct Hy as [Hy|[Hy|[]]]; inversion Hx; inversion Hy; subst; cbn; congruence.
 Qed.
+
+(* ---- the binary recursion sc_notify_recursive, every communicator size (powers of two or not) ---------------
+   binary_peers / binary_tag / binary_pow2length are GENERATED slices.  Level j has half length 2^j and groups of
+   2 * 2^j ranks; bpeer / bpeer2 are the two components of binary_peers with half = bhalf (the code's test
+   `me < start + length2`, theorem C01_binary_half), bstart the first rank of the group. *)
+Theorem C01_binary_half : forall h me, 0 < h -> 0 <= me ->
+  bhalf h me = if me <? gstart h 2 me + h then 0 else 1.
+Proof. exact bhalf_test. Qed.
+Print Assumptions C01_binary_half.
+
+(* tag of the level with group length 2^k and its half length *)
+Theorem C01_binary_tag : forall k, 1 <= k <= 30 ->
+  binary_tag c_SC_TAG_NOTIFY_RECURSIVE (2 ^ k) = (c_SC_TAG_NOTIFY_RECURSIVE + k, 2 ^ (k - 1)).
+Proof. exact binary_tag_spec. Qed.
+Print Assumptions C01_binary_tag.
+
+(* distinct levels use distinct tags, all below the tags of the n-ary recursion *)
+Theorem C01_binary_tags_distinct : forall k1 k2, 1 <= k1 <= 30 -> 1 <= k2 <= 30 -> k1 <> k2 ->
+  fst (binary_tag c_SC_TAG_NOTIFY_RECURSIVE (2 ^ k1)) <> fst (binary_tag c_SC_TAG_NOTIFY_RECURSIVE (2 ^ k2)) /\
+  fst (binary_tag c_SC_TAG_NOTIFY_RECURSIVE (2 ^ k1)) < c_SC_TAG_NOTIFY_NARY.
+Proof. exact binary_tags_distinct. Qed.
+Print Assumptions C01_binary_tags_distinct.
+
+(* sc_notify starts with the least power of two >= mpisize *)
+Theorem C01_binary_toplength : forall P, 0 < P <= 2 ^ 30 -> is_roundup2 P (binary_pow2length P).
+Proof. exact binary_pow2length_spec. Qed.
+Print Assumptions C01_binary_toplength.
+
+(* MATCHING: q sends its message of level j to me  iff  me posts a receive for it (guard `peer >= start` resp.
+   `peer2 >= 0`): no hang, no message left over, for every G *)
+Theorem C01_binary_matching : forall j G me q, 0 <= j -> 0 < G <= BIG -> 2 * 2 ^ j <= BIG -> 0 <= me < G -> 0 <= q < G ->
+  (bpeer j G q = me <->
+   (q = bpeer j G me /\ bstart j me <= bpeer j G me) \/ (q = bpeer2 j G me /\ 0 <= bpeer2 j G me)).
+Proof. exact binary_matching_gen. Qed.
+Print Assumptions C01_binary_matching.
+
+(* the (at most) two sources are different ranks and none is the rank itself *)
+Theorem C01_binary_sources_distinct : forall j G me, 0 <= j -> 0 < G <= BIG -> 2 * 2 ^ j <= BIG -> 0 <= me < G ->
+  0 <= bpeer2 j G me -> bpeer2 j G me <> bpeer j G me /\ bpeer2 j G me <> me /\ bpeer j G me <> me.
+Proof. exact binary_sources_distinct_gen. Qed.
+Print Assumptions C01_binary_sources_distinct.
+
+(* ROUTING at one level: a record for t held by me (t = me mod 2^j) stays iff t = me mod 2^(j+1) (the code's
+   test), otherwise the peer exists and is congruent to t modulo the group length *)
+Theorem C01_binary_routing : forall j G me t, 0 <= j -> 0 < G <= BIG -> 2 * 2 ^ j <= BIG -> 0 <= me < G -> 0 <= t < G ->
+  t mod 2 ^ j = me mod 2 ^ j ->
+  (t mod (2 * 2 ^ j) = me mod (2 * 2 ^ j)) \/
+  (t mod (2 * 2 ^ j) <> me mod (2 * 2 ^ j) /\ 0 <= bpeer j G me < G /\ t mod (2 * 2 ^ j) = bpeer j G me mod (2 * 2 ^ j)).
+Proof. exact binary_routing_gen. Qed.
+Print Assumptions C01_binary_routing.
+
+(* DELIVERY through the levels j .. j+n-1 *)
+Theorem C01_binary_delivery : forall n j G holder t,
+  0 <= j -> 0 < G <= BIG -> 2 ^ (j + Z.of_nat n) <= BIG -> G <= 2 ^ (j + Z.of_nat n) ->
+  0 <= holder < G -> 0 <= t < G -> t mod 2 ^ j = holder mod 2 ^ j -> bdeliver n j G holder t = t.
+Proof. exact bdeliver_correct. Qed.
+Print Assumptions C01_binary_delivery.
+
+(* PATTERN INVERSION for every G >= 1 and every family of receiver lists *)
+Theorem C01_binary_inverts_pattern : forall n G (R : Z -> list Z) p,
+  0 < G <= BIG -> 2 ^ Z.of_nat n <= BIG -> G <= 2 ^ Z.of_nat n ->
+  (forall f t, 0 <= f < G -> In t (R f) -> 0 <= t < G) -> 0 <= p < G ->
+  forall f, In f (bfinal_senders n G R p) <-> (0 <= f < G /\ In p (R f)).
+Proof. exact binary_inverts_pattern. Qed.
+Print Assumptions C01_binary_inverts_pattern.
+
+Example C01_binary_nonvacuous :
+  (* 11 ranks, 4 levels; rank 10 (no peer at the top level: 10 ^ 8 = 2) and rank 9 whose peer 13 does not exist *)
+  bdeliver 4 0 11 10 5 = 5 /\ bdeliver 4 0 11 9 7 = 7 /\ bpeer 2 11 9 = 5 /\ bpeer2 2 11 5 = 9 /\ bpeer 3 11 3 = -5 /\
+  bfinal_senders 4 11 (fun f => if f =? 4 then [0; 9] else if f =? 9 then [9] else if f =? 10 then [9] else []) 9 = [4; 9; 10].
+Proof. repeat split; vm_compute; reflexivity. Qed.
